@@ -142,7 +142,7 @@ def eval_repair(item):
     old_name, new_name = PAIRS[pair]
     old_cls = getattr(D, old_name)
     out = {"states": 0, "transitions": 0, "bad": [], "state_list": []}
-    base = Path(tempfile.mkdtemp(prefix="c20", dir="/dev/shm"))
+    base = Path(tempfile.mkdtemp(prefix="c20", dir=os.environ.get("VERIF_SCRATCH", "/dev/shm")))
     try:
         # --- the workspace as the old program left it
         D.set_deprecated(old_cls, False)
@@ -342,7 +342,7 @@ def eval_repair_twostep(item):
     from . import vworld as V, vxpm as X
     X.install()
     out = {"states": 0, "transitions": 0, "bad": []}
-    base = Path(tempfile.mkdtemp(prefix="c20t", dir="/dev/shm"))
+    base = Path(tempfile.mkdtemp(prefix="c20t", dir=os.environ.get("VERIF_SCRATCH", "/dev/shm")))
     classes = [D.OldA, D.OldB] if item.get("order", "AB") == "AB" else [D.OldB, D.OldA]
 
     def build(x):
